@@ -55,7 +55,7 @@ class Operation:
         Returns:
              $a=b$
         """
-        return np.isclose(a, b, rtol=0, atol=0, equal_nan=True)  # type: ignore
+        return scalar(np.isclose(a, b, rtol=0, atol=0, equal_nan=True))
 
     @staticmethod
     def neq(
@@ -71,7 +71,7 @@ class Operation:
         Returns:
              $a\not=b$
         """
-        return ~np.isclose(a, b, rtol=0, atol=0, equal_nan=True)  # type: ignore
+        return scalar(~np.isclose(a, b, rtol=0, atol=0, equal_nan=True))
 
     @staticmethod
     def gt(
@@ -103,7 +103,7 @@ class Operation:
         Returns:
              $a \ge b$
         """
-        return (a >= b) | np.isclose(a, b, rtol=0, atol=0, equal_nan=True)  # type: ignore
+        return scalar((a >= b) | np.isclose(a, b, rtol=0, atol=0, equal_nan=True))
 
     @staticmethod
     def le(
@@ -119,7 +119,7 @@ class Operation:
         Returns:
              $a \le b$
         """
-        return (a <= b) | np.isclose(a, b, rtol=0, atol=0, equal_nan=True)  # type: ignore
+        return scalar((a <= b) | np.isclose(a, b, rtol=0, atol=0, equal_nan=True))
 
     @staticmethod
     def lt(
